@@ -293,7 +293,7 @@ Proof.
   end.
 Qed.
 
-Lemma content_pre_within p n0 r : Forall (diag_within p (p + n0)) (content_pre p n0 r).
+Lemma content_pre_within p n0 r : Forall (diag_within p (p + n0)) (content_pre C p n0 r).
 Proof.
   unfold content_pre. split_ifs; repeat constructor; unfold span_within; cbn; lia.
 Qed.
@@ -322,7 +322,7 @@ Lemma string_content_spec p r : Valid r -> r <> [] ->
   forall n ds esc pn, string_content C V p r = (n, ds, esc, pn) ->
   n <= length r /\ Forall (diag_within p (p + n)) ds
   /\ (pn = false -> 1 <= n /\ Valid (skipn n r))
-  /\ (pn = true -> fix_esc V = false /\ r = [92%N]).
+  /\ (pn = true -> fix_esc V = false /\ r = [92%N] /\ n = 1).
 Proof.
   intros Hv Hne n ds esc pn. unfold string_content.
   destruct (Valid_peek r Hv Hne) as (r0 & n0 & _ & Hp & Hw & H1 & H2 & H3 & H4 & _).
@@ -333,7 +333,7 @@ Proof.
   (* a backslash: one byte *)
   assert (Hb : exists t, r = 92%N :: t /\ Valid t /\ n0 = 1).
   { destruct (peek_eq_ascii r 92 Hv ltac:(lia) ltac:(congruence)) as (t & -> & Hvt & Hpl).
-    exists t. repeat split; auto. congruence. }
+    exists t. repeat split; auto; congruence. }
   destruct Hb as (t & -> & Hvt & ->). cbn [skipn].
   destruct t as [|b2 t2] eqn:Et.
   - (* the backslash is the last byte of the text *)
@@ -341,14 +341,14 @@ Proof.
     destruct (invalid_escape_diag V p [92%N]) as [d pnn] eqn:Ed.
     pose proof (invalid_escape_diag_short p [92%N] ltac:(cbn; lia)) as (S1 & S2).
     rewrite Ed in S1, S2. cbn [fst snd length] in S1, S2.
-    intros H; inversion H; subst. cbn [length]. split; [lia|]. split.
+    intros H. injection H as <- <- <- <-. cbn [length]. split; [lia|]. split.
     + apply Forall_app. split; [exact Hpre|]. constructor; [exact S2|constructor].
-    + split.
+    + rewrite S1. split.
       * intros Hf. split; [lia|]. cbn. constructor.
-      * intros Hf. rewrite Hf in H8. split; [|reflexivity]. now destruct (fix_esc V).
+      * intros Hf. split; [|split; reflexivity]. now destruct (fix_esc V).
   - rewrite <- Et in *. assert (Hnt : t <> []) by (subst; discriminate).
     destruct (escape_scan_spec t Hvt Hnt) as (m & [Em|Em] & M1 & M2 & M3); rewrite Em.
-    + intros H; inversion H; subst n ds esc pn. cbn [length]. split; [lia|]. split.
+    + intros H. injection H as <- <- <- <-. cbn [length]. split; [lia|]. split.
       * eapply Forall_impl; [|exact Hpre]. intros d. apply diag_within_mono; lia.
       * split; [|discriminate]. intros _. split; [lia|exact M3].
     + destruct (invalid_escape_diag V p (firstn (1 + m) (92%N :: t))) as [d pnn] eqn:Ed.
@@ -356,12 +356,137 @@ Proof.
       { rewrite firstn_length. cbn [length]. lia. }
       pose proof (invalid_escape_diag_long p (firstn (1 + m) (92%N :: t)) ltac:(lia)) as (S1 & S2).
       rewrite Ed in S1, S2. cbn [fst snd] in S1, S2. rewrite Hlen in S2.
-      intros H; inversion H; subst n ds esc pn. cbn [length]. split; [lia|]. split.
+      intros H. injection H as <- <- <- <-. cbn [length]. split; [lia|]. split.
       * apply Forall_app. split.
         -- eapply Forall_impl; [|exact Hpre]. intros d0. apply diag_within_mono; lia.
         -- constructor; [exact S2|constructor].
       * split; [|congruence]. intros _. split; [lia|exact M3].
 Qed.
 
+
+Lemma last_byte_suffix rest k x : skipn k rest = [x] -> last_byte rest = Some x.
+Proof.
+  intros H. unfold last_byte. rewrite <- (firstn_skipn k rest), H, rev_app_distr. reflexivity.
+Qed.
+
+Lemma skipn_nth_cons {A} (l : list A) n d : n < length l -> skipn n l = nth n l d :: skipn (S n) l.
+Proof.
+  revert l. induction n as [|n IH]; intros l H; destruct l as [|a l]; cbn in H; try lia; [reflexivity|].
+  cbn [skipn nth]. apply IH. lia.
+Qed.
+
+(* lexString from [cur] on [rest] whose byte number [sigil] is a quote character *)
+Lemma lex_string_spec cur rest sigil :
+  Valid rest -> sigil < length rest -> Valid (skipn sigil rest) ->
+  (nth sigil rest 0 = 34 \/ nth sigil rest 0 = 39)%N ->
+  exists acts n pn, lex_string C V cur rest sigil = Some (acts, n, pn) /\ sigil + 1 <= n /\ n <= length rest
+    /\ (pn = false -> Valid (skipn n rest) /\ exists ds meta td,
+          acts = map ADiag ds ++ [APush n K_String 0 meta false td]
+          /\ Forall (diag_within cur (cur + n)) ds /\ (forall sg, meta = Some sg -> sg <= n))
+    /\ (pn = true -> fix_esc V = false /\ n = length rest /\ last_byte rest = Some 92%N
+          /\ exists ds, acts = map ADiag ds /\ Forall (diag_within cur (cur + n)) ds).
+Proof.
+  intros Hv Hs Hvs Hq. unfold lex_string.
+  assert (E0 : skipn sigil rest = nth sigil rest 0%N :: skipn (S sigil) rest) by (apply skipn_nth_cons; exact Hs).
+  remember (nth sigil rest 0%N) as q eqn:Hq0. remember (skipn (S sigil) rest) as t0 eqn:Ht0.
+  rewrite E0. cbn [nth].
+  assert (Hqa : (q < 128)%N) by lia.
+  assert (Hr0len : length (q :: t0) = length rest - sigil) by (rewrite <- E0; now rewrite skipn_length).
+  set (r0 := q :: t0) in *.
+  set (quote := if Nat.leb 3 (length r0) && N.eqb (nth 1 r0 0%N) q && N.eqb (nth 2 r0 0%N) q
+                then [q; q; q] else [q]).
+  assert (Hquote : is_prefix quote r0 = true /\ ascii quote /\ 1 <= length quote).
+  { unfold quote, r0.
+    destruct (Nat.leb 3 (length (q :: t0)) && N.eqb (nth 1 (q :: t0) 0%N) q && N.eqb (nth 2 (q :: t0) 0%N) q) eqn:E3.
+    - apply andb_true_iff in E3. destruct E3 as [E3 E3c]. apply andb_true_iff in E3. destruct E3 as [E3a E3b].
+      destruct t0 as [|a1 [|a2 t2]]; cbn in E3a; try discriminate.
+      cbn [nth] in E3b, E3c. apply N.eqb_eq in E3b. apply N.eqb_eq in E3c. subst a1 a2.
+      split; [cbn; now rewrite !N.eqb_refl|]. split; [repeat constructor; auto|cbn; lia].
+    - split; [cbn; now rewrite N.eqb_refl|]. split; [repeat constructor; auto|cbn; lia]. }
+  destruct Hquote as (Hpre & Hasc & Hql).
+  pose proof Hpre as Hpre'. apply is_prefix_spec in Hpre'. destruct Hpre' as [_ Hqle].
+  set (hd := sigil + length quote).
+  assert (Hhd : hd <= length rest) by (unfold hd; lia).
+  assert (Hvh : Valid (skipn hd rest)).
+  { unfold hd. rewrite <- skipn_skipn. rewrite E0. apply Valid_skip_prefix; auto. now rewrite <- E0. }
+  set (Q := fun (st : sstate) (r : list N) =>
+              r = skipn (sb_pos st - cur) rest /\ cur + hd <= sb_pos st /\ sb_pos st <= cur + length rest
+              /\ Valid r /\ Forall (diag_within cur (sb_pos st)) (sb_diags st) /\ sb_panic st = false).
+  set (R := fun (st : sstate) (r : list N) =>
+              r = skipn (sb_pos st - cur) rest /\ cur + hd <= sb_pos st /\ sb_pos st <= cur + length rest
+              /\ Forall (diag_within cur (sb_pos st)) (sb_diags st)
+              /\ (sb_panic st = false -> Valid r)
+              /\ (sb_panic st = true -> fix_esc V = false /\ r = [] /\ last_byte rest = Some 92%N)).
+  set (st0 := {| sb_pos := cur + hd; sb_diags := []; sb_esc := false; sb_term := false; sb_panic := false |}).
+  assert (Hlen_of : forall st r, r = skipn (sb_pos st - cur) rest -> cur + hd <= sb_pos st ->
+                                sb_pos st <= cur + length rest -> length r = cur + length rest - sb_pos st).
+  { intros st r -> A B. rewrite skipn_length. lia. }
+  destruct (rloop_spec (str_body C V quote) Q R) with (fuel := length (skipn hd rest)) (st := st0) (rest := skipn hd rest)
+    as (st & n & Hr & Hn & HR).
+  - (* end of text *)
+    intros st (Q1 & Q2 & Q3 & Q4 & Q5 & Q6). unfold R. repeat split; auto; congruence.
+  - (* one more logical rune *)
+    intros st r st' n Hne (Q1 & Q2 & Q3 & Q4 & Q5 & Q6) Hb. unfold str_body in Hb.
+    destruct (is_prefix quote r); [discriminate|].
+    destruct (string_content C V (sb_pos st) r) as [[[n' ds] esc] pn] eqn:Esc.
+    destruct (string_content_spec (sb_pos st) r Q4 Hne _ _ _ _ Esc) as (S1 & S2 & S3 & S4).
+    destruct pn; [discriminate|]. injection Hb as <- <-.
+    destruct (S3 eq_refl) as (S5 & S6).
+    pose proof (Hlen_of st r Q1 Q2 Q3) as Hl.
+    split; [exact S5|]. split; [exact S1|]. unfold Q. cbn [sb_pos sb_diags sb_panic].
+    split. { rewrite Q1 at 1. rewrite skipn_skipn. f_equal. lia. }
+    split; [lia|]. split; [lia|]. split; [exact S6|]. split; [|reflexivity].
+    apply Forall_app. split.
+    + eapply Forall_impl; [|exact Q5]. intros d. apply diag_within_mono; lia.
+    + eapply Forall_impl; [|exact S2]. intros d. apply diag_within_mono; lia.
+  - (* leaving the loop: the closing quote, or the panic *)
+    intros st r st' n Hne (Q1 & Q2 & Q3 & Q4 & Q5 & Q6) Hb. unfold str_body in Hb.
+    pose proof (Hlen_of st r Q1 Q2 Q3) as Hl.
+    destruct (is_prefix quote r) eqn:Epq.
+    + injection Hb as <- <-. pose proof Epq as Epq'. apply is_prefix_spec in Epq'. destruct Epq' as [_ Hle].
+      split; [exact Hle|]. unfold R. cbn [sb_pos sb_diags sb_panic].
+      split. { rewrite Q1 at 1. rewrite skipn_skipn. f_equal. lia. }
+      split; [lia|]. split; [lia|]. split.
+      { eapply Forall_impl; [|exact Q5]. intros d. apply diag_within_mono; lia. }
+      split; [|discriminate]. intros _. apply Valid_skip_prefix; auto.
+    + destruct (string_content C V (sb_pos st) r) as [[[n' ds] esc] pn] eqn:Esc.
+      destruct (string_content_spec (sb_pos st) r Q4 Hne _ _ _ _ Esc) as (S1 & S2 & S3 & S4).
+      destruct pn; [|discriminate]. injection Hb as <- <-.
+      destruct (S4 eq_refl) as (S5 & S6 & S7). subst n'.
+      split; [exact S1|]. unfold R. cbn [sb_pos sb_diags sb_panic].
+      assert (Hsk : skipn 1 r = skipn (sb_pos st + 1 - cur) rest).
+      { rewrite Q1 at 1. rewrite skipn_skipn. f_equal. lia. }
+      split; [exact Hsk|]. rewrite S6 in Hl. cbn [length] in Hl.
+      split; [lia|]. split; [lia|]. split.
+      { apply Forall_app. split.
+        - eapply Forall_impl; [|exact Q5]. intros d. apply diag_within_mono; lia.
+        - eapply Forall_impl; [|exact S2]. intros d. apply diag_within_mono; lia. }
+      split; [discriminate|]. intros _. split; [exact S5|]. split; [now rewrite S6|].
+      apply (last_byte_suffix rest (sb_pos st - cur)). now rewrite <- Q1.
+  - lia.
+  - unfold Q, st0. cbn [sb_pos sb_diags sb_panic]. split; [f_equal; lia|].
+    split; [lia|]. split; [lia|]. split; [exact Hvh|]. split; [constructor|reflexivity].
+  - rewrite Hr. destruct HR as (R1 & R2 & R3 & R4 & R5 & R6).
+    rewrite skipn_length in Hn.
+    assert (Hpos : sb_pos st = cur + hd + n).
+    { assert (Hl : length (skipn n (skipn hd rest)) = length (skipn (sb_pos st - cur) rest)) by now rewrite <- R1.
+      rewrite !skipn_length in Hl. lia. }
+    assert (Hsk : skipn n (skipn hd rest) = skipn (hd + n) rest) by apply skipn_skipn.
+    destruct (sb_panic st) eqn:Epn.
+    + destruct (R6 eq_refl) as (P1 & P2 & P3).
+      exists (map ADiag (sb_diags st)), (hd + n), true.
+      assert (Hall : hd + n = length rest).
+      { rewrite Hsk in P2. apply (f_equal (@length N)) in P2. rewrite skipn_length in P2. cbn in P2. lia. }
+      split; [reflexivity|]. split; [unfold hd; lia|]. split; [lia|]. split; [discriminate|].
+      intros _. split; [exact P1|]. split; [exact Hall|]. split; [exact P3|].
+      exists (sb_diags st). split; [reflexivity|]. rewrite Hpos in R4.
+      eapply Forall_impl; [|exact R4]. intros d. apply diag_within_mono; lia.
+    + eexists. exists (hd + n), false.
+      split; [reflexivity|]. split; [unfold hd; lia|]. split; [lia|]. split; [|discriminate].
+      intros _. split; [rewrite <- Hsk; auto|].
+      do 3 eexists. split; [reflexivity|]. split.
+      * rewrite Hpos in R4. eapply Forall_impl; [|exact R4]. intros d. apply diag_within_mono; lia.
+      * intros sg. split_ifs; intros Hm; inversion Hm; subst; unfold hd; lia.
+Qed.
 
 End Scan.
